@@ -4,7 +4,8 @@ from ..runner import Harness
 from ..pse import truth
 from . import common as cm
 
-LOCATIONS = ["/srv/data", "/ascmhl", "/mnt/ascmhl/projects", "/vol/render.tmp/day1", "/a b/ü & co", "/.DS_Store/x", "/srv/R", "/Shoot [2024]/[B-cam] day 1"]
+LOCATIONS = ["/srv/data", "/ascmhl", "/mnt/ascmhl/projects", "/vol/render.tmp/day1", "/a b/ü & co", "/.DS_Store/x", "/srv/R", "/Shoot [2024]/[B-cam] day 1",
+             "/Volumes/100% synced/take 50%d {0}"]  # (the last one: printf- and format-style placeholders in folder names)
 ORDERS = ["sorted", "reversed", "rotated", "interleaved"]
 
 
@@ -40,8 +41,8 @@ def seal(b, sym, spelling, nested):
             b.restamp(c)
     r = b.run("create", h=["md5", "c4"], i=["*.tmp", "d/e/f.txt", "/d/Reel"], **rootarg)
     b.require(r.exit == 0 and r.exc is None, "create-exit-0", "%s %s" % (rootarg, r))
-    r = b.run("create", h=["md5"], **rootarg)
-    b.require(r.exit == 0 and r.exc is None, "create-exit-0", "second: %s %s" % (rootarg, r))
+    r = b.run("create", h=["md5"], v=True, **rootarg)  # (verbose: what is printed has no influence on what is written)
+    b.require(r.exit == 0 and r.exc is None, "create-exit-0", "second (-v): %s %s" % (rootarg, r))
 
 
 def rename_phase(b, spelling):
@@ -99,7 +100,7 @@ def scenario(tier):
             b3 = b2.sibling("/copies/%s" % ("ascmhl" if sym.flag("copy_below_ascmhl") else "x"), listing=order)
             try:
                 b2.copy_tree_to("R", b3, "R")
-                for cmd, kw in (("verify", {}), ("verify", {"dh": True}), ("diff", {})):
+                for cmd, kw in (("verify", {"v": True}), ("verify", {"dh": True}), ("diff", {})):
                     r = b3.run(cmd, root="R", **kw)
                     b.require(r.exit == 0 and r.exc is None, "relocated-copy-verifies", "%s: %s %s -> %s" % (tag, cmd, kw, r))
             finally:
